@@ -233,7 +233,9 @@ def recipes():
     R['TemporalDataset.convert_to_dataset'] = lambda k: ([k.temporal(), 'time'], {})
     R['TemporalDataset.to_dict'] = lambda k: ([k.temporal()], {})
     R['dataset_from_dict'] = lambda k: ([k.dataset().to_dict() if k.variant != 1 else k.temporal().to_dict()], {})
-    R['merge_datasets'] = lambda k: ([[k.dataset(), k.dataset()] if k.variant != 1 else [k.temporal(), k.temporal()]], {})
+    # variant 2: a list of one dataset (the merged result must still be a new, independent object)
+    R['merge_datasets'] = lambda k: ([[k.dataset(), k.dataset()] if k.variant == 0 else
+                                      [k.temporal(), k.temporal()] if k.variant == 1 else [k.dataset()]], {})
     R['merge_subsets'] = lambda k: ([[k.dataset(), k.dataset()]], {})
     R['average_dataset'] = lambda k: ([k.dataset()], {})
     R['average_dataset_by'] = lambda k: ([k.dataset(), 'cond'], {})
